@@ -988,8 +988,59 @@ def coq_part(ctx, fails, table, cases=None):
                                  'est_out(rows)[:4]': [str(x) for x in init[0][:4]], 'est_out(swap_row rows)[:4]': [str(x) for x in init[2][:4]]}}, cap=8)
 
 
+# ====================================================================================================== development switch
+_PATCH_NOTE = []
+
+
+def _maybe_patch():
+    """C08_PATCH=1 (OFF by default, development only): apply, IN THIS PROCESS and never in /repo, the three proposed repairs --
+    IPMW._monotone_variables builds its running products on the data's index; the log-risk-ratio influence curves of
+    aipw_calculator and of TMLE.fit (rows with a missing outcome) are written as D1/mean(Q1) - D0/mean(Q0).  With the
+    switch on the run reports no violation, which shows that exactly these three sites are responsible."""
+    import os
+    if os.environ.get('C08_PATCH') != '1' or _PATCH_NOTE:
+        return
+    import importlib
+    import inspect
+    import sys
+    import textwrap
+    importlib.import_module('zepid.causal.ipw.IPMW')
+    mod = sys.modules['zepid.causal.ipw.IPMW']
+    src = textwrap.dedent(inspect.getsource(mod.IPMW._monotone_variables))
+    for v in ('probs_denom', 'probs_num'):
+        old = '%s = pd.Series([1] * self.df.shape[0])' % v
+        assert old in src
+        src = src.replace(old, '%s = pd.Series([1] * self.df.shape[0], index=self.df.index)' % v)
+    ns = {}
+    exec(src, vars(mod), ns)
+    mod.IPMW._monotone_variables = ns['_monotone_variables']
+    um = importlib.import_module('zepid.causal.utils')
+    src = inspect.getsource(um.aipw_calculator)
+    old = ("            ic = ((a*(y-py_o)) / (np.mean(py_a)*pa1) + (py_a - np.mean(py_a)) -\n"
+           "                  ((1-a)*(y-py_o)) / (np.mean(py_n)*pa0) + (py_n - np.mean(py_n)))")
+    assert old in src
+    src = src.replace(old, "            ic = (((a*(y-py_o)) / pa1 + (py_a - np.mean(py_a))) / np.mean(py_a) -\n"
+                           "                  (((1-a)*(y-py_o)) / pa0 + (py_n - np.mean(py_n))) / np.mean(py_n))")
+    ns = {}
+    exec(src, vars(um), ns)
+    importlib.import_module('zepid.causal.doublyrobust.AIPW')
+    sys.modules['zepid.causal.doublyrobust.AIPW'].aipw_calculator = ns['aipw_calculator']
+    importlib.import_module('zepid.causal.doublyrobust.TMLE')
+    tm = sys.modules['zepid.causal.doublyrobust.TMLE']
+    src = textwrap.dedent(inspect.getsource(tm.TMLE.fit))
+    old = '(Qstar1 - np.mean(Qstar1)) + Qstar0 - np.mean(Qstar0))'
+    assert old in src
+    src = src.replace(old, '(Qstar1 - np.mean(Qstar1)) / np.mean(Qstar1) - (Qstar0 - np.mean(Qstar0)) / np.mean(Qstar0))')
+    ns = {}
+    exec(src, vars(tm), ns)
+    tm.TMLE.fit = ns['fit']
+    _PATCH_NOTE.append('C08_PATCH=1: IPMW._monotone_variables, aipw_calculator and TMLE.fit replaced in-process by their patched source')
+
+
 # ====================================================================================================== driver
 def run(ctx):
+    _maybe_patch()
+    ctx.notes.extend(_PATCH_NOTE)
     fails, table = [], {}
     meta_part(ctx, fails, table)
     coq_part(ctx, fails, table)
@@ -1021,6 +1072,8 @@ def report(ctx, fails, table):
 
 
 def replay(ctx, payload):
+    _maybe_patch()
+    ctx.notes.extend(_PATCH_NOTE)
     fails, table = [], {}
     if payload.get('part') == 'coq':
         coq_part(ctx, fails, table, cases=[{k: payload[k] for k in ('frame', 'meta', 'perm', 'c', 'd')}])
